@@ -51,6 +51,20 @@ func checkC09Glue(c *Ctx, r *Report) {
 		}
 		t := NewTaint(p)
 		t.asmWrite, t.asmResult = asmW, asmRes
+		// the AEAD / cipher objects hold the round keys (secret) next to their configuration: integer fields of the receiver
+		// (tagSize, nonceSize) are public
+		t.publicLoad = func(ld *ssa.UnOp) bool {
+			fa, ok := ld.X.(*ssa.FieldAddr)
+			if !ok {
+				return false
+			}
+			b, isB := ld.Type().Underlying().(*types.Basic)
+			if !isB || b.Info()&types.IsInteger == 0 {
+				return false
+			}
+			prm, isP := fa.X.(*ssa.Parameter)
+			return isP && prm.Parent() != nil && prm.Parent().Signature.Recv() != nil && len(prm.Parent().Params) > 0 && prm.Parent().Params[0] == prm
+		}
 		seeds := map[*ssa.Function]lbl{}
 		inScope := func(fn *ssa.Function) bool {
 			if fn.Pkg == nil || shortPkg(fn.Pkg.Pkg.Path()) != "sm4" || len(fn.Blocks) == 0 {
